@@ -65,7 +65,7 @@ type builtVector3PropertyWriter struct {
 func (bv3pw builtVector3PropertyWriter) Write(out io.Writer, i int) (err error) {
 	switch bv3pw.format {
 	case UChar:
-		v3 := bv3pw.arr.At(i).Scale(255).RoundToInt()
+		v3 := bv3pw.arr.At(i).Clamp(0, 1).Scale(255).RoundToInt()
 		bv3pw.buf[0] = byte(v3.X())
 		bv3pw.buf[1] = byte(v3.Y())
 		bv3pw.buf[2] = byte(v3.Z())
